@@ -128,7 +128,67 @@ func checkC08(c *Ctx) {
 				}
 			}
 		})
-		c.check(okArms, "C08.c", "expungeLocked: each message is either kept or reported expunged", ex.Pos(), "QueueExpunge and the keep-append are the two arms of one test", "a removed message is not paired with exactly one QueueExpunge")
+		if !okArms {
+			// two passes over the list with the same membership test: the report
+			// under `m ∈ expunged`, the keep-append under `m ∉ expunged`, same map
+			lookupGuard := func(b *ssa.BasicBlock) (ssa.Value, bool, bool) {
+				for d := b.Idom(); d != nil; d = d.Idom() {
+					if len(d.Instrs) == 0 || len(d.Succs) != 2 {
+						continue
+					}
+					ifi, ok := d.Instrs[len(d.Instrs)-1].(*ssa.If)
+					if !ok {
+						continue
+					}
+					pol := true
+					cond := ifi.Cond
+					if u, ok := cond.(*ssa.UnOp); ok && u.Op == token.NOT {
+						cond, pol = u.X, false
+					}
+					ex1, ok := cond.(*ssa.Extract)
+					if !ok || ex1.Index != 1 {
+						continue
+					}
+					lk, ok := ex1.Tuple.(*ssa.Lookup)
+					if !ok || !lk.CommaOk {
+						continue
+					}
+					// a successor that dominates d is a back edge to the loop header, not a branch arm
+					arm := func(s *ssa.BasicBlock) bool { return s == b || (!s.Dominates(d) && s.Dominates(b)) }
+					switch {
+					case arm(d.Succs[0]) && !arm(d.Succs[1]):
+						return lk.X, pol, true
+					case arm(d.Succs[1]) && !arm(d.Succs[0]):
+						return lk.X, !pol, true
+					}
+				}
+				return nil, false, false
+			}
+			var repMap, keepMap ssa.Value
+			repOK, keepOK := false, false
+			allInstrs(ex, func(i ssa.Instruction) {
+				call, ok := i.(*ssa.Call)
+				if !ok {
+					return
+				}
+				if callKey(call) == "(*MailboxTracker).QueueExpunge" {
+					if m, pol, ok := lookupGuard(i.Block()); ok && pol {
+						repMap, repOK = m, true
+					}
+				}
+				if b, ok := call.Call.Value.(*ssa.Builtin); ok && b.Name() == "append" {
+					if et, ok := call.Type().Underlying().(*types.Slice); ok && strings.HasSuffix(et.Elem().String(), "imapmemserver.message") {
+						if m, pol, ok := lookupGuard(i.Block()); ok && !pol {
+							keepMap, keepOK = m, true
+						}
+					}
+				}
+			})
+			if repOK && keepOK && repMap == keepMap {
+				okArms = true
+			}
+		}
+		c.check(okArms, "C08.c", "expungeLocked: each message is either kept or reported expunged", ex.Pos(), "QueueExpunge and the keep-append are guarded by the same membership test with opposite outcomes", "a removed message is not paired with exactly one QueueExpunge")
 	}
 	// ---- (d) ---------------------------------------------------------------
 	queueExpunge := p.Func("imapserver", "MailboxTracker", "QueueExpunge")
